@@ -1,6 +1,6 @@
 ------------------------------ MODULE MC_Session ------------------------------
 (***************************************************************************)
-(* Bounded instance of Session: 16 concrete queries in 13 classes, a table *)
+(* Bounded instance of Session: 17 concrete queries in 13 classes, a table *)
 (* for the abstract function Reply, all histories up to MaxLen with the    *)
 (* feature flag on and off.  Values are symbolic: <<base, k>> is "the      *)
 (* value of query base, plus k" and <<"none", 0>> is "no previous answer". *)
@@ -16,8 +16,8 @@ VARIABLES hist, src
 
 MCNoAns == <<"none", 0>>
 Numbers == {"n1", "n2", "n3"}          \* n1, n3 dimensionless, n2 carries a unit
-MCQueries == Numbers \cup {"tm", "dt", "su", "cv", "ul", "df", "uf", "fz", "se", "er", "a1", "a2", "a3"}
-MCPlain(q) == q \notin {"cv", "ul", "uf", "fz", "se"}
+MCQueries == Numbers \cup {"tm", "dt", "su", "cv", "cf", "ul", "df", "uf", "fz", "se", "er", "a1", "a2", "a3"}
+MCPlain(q) == q \notin {"cv", "cf", "ul", "uf", "fz", "se"}
 
 R(kind, raw) == [kind |-> kind, raw |-> raw]
 Dimless(a) == a[1] \in {"n1", "n3"}
@@ -28,6 +28,7 @@ MCReply(q, a) ==
     [] q = "dt" -> R("date", MCNoAns)
     [] q = "su" -> R("subst", MCNoAns)
     [] q = "cv" -> R("conversion", MCNoAns)
+    [] q = "cf" -> R("conversion", MCNoAns)            \* format-only conversion (-> hex, -> digits N, -> frac): no target unit
     [] q = "ul" -> R("unitlist", MCNoAns)
     [] q = "df" -> R("def", MCNoAns)
     [] q = "uf" -> R("unitsfor", MCNoAns)
@@ -57,7 +58,7 @@ Do(q) ==
 PlainNumber == \E q \in Numbers : Do(q)
 TimeValue == Do("tm")
 OtherPlain == \E q \in {"dt", "su", "df"} : Do(q)
-Command == \E q \in {"cv", "ul", "uf", "fz", "se"} : Do(q)
+Command == \E q \in {"cv", "cf", "ul", "uf", "fz", "se"} : Do(q)
 Failing == Do("er")
 UseAns == \E q \in {"a1", "a2", "a3"} : Do(q)
 
